@@ -452,18 +452,23 @@ func rarePayload(r *sim.Rng, tier string) (pl sim.Payload, dictCap int, ok bool)
 // byte value, the piece again - one match whose distance needs a dictionary of
 // 32 MiB (what gxz -8 uses). Expensive (about a second, 250 MB): one case per
 // quick batch of a writer check, a few per thorough batch.
-func veryFarPayload(r *sim.Rng) (sim.Payload, int) {
+func veryFarPayload(r *sim.Rng, idx int) (sim.Payload, int) {
 	x := sim.Payload{Kind: "prng", N: r.Range(100<<10, 256<<10), Seed: r.Uint64()}
-	gap := r.Range(16<<20+1000, 23<<20)
-	return sim.Payload{Kind: "concat", Parts: []sim.Payload{x, {Kind: "run", N: gap, A: r.Intn(256)}, x}}, 1 << 25
+	gap, dict := r.Range(16<<20+1000, 23<<20), 1<<25
+	if idx%2 == 0 {
+		// ... or of 64 MiB (gxz -9): a distance between 32 and 64 MiB
+		x.N = r.Range(1<<10, 64<<10)
+		gap, dict = r.Range(32<<20+1000, 40<<20), 1<<26
+	}
+	return sim.Payload{Kind: "concat", Parts: []sim.Payload{x, {Kind: "run", N: gap, A: r.Intn(256)}, x}}, dict
 }
 
 // isVeryFarCase picks the run indices that get the veryFarPayload.
 func isVeryFarCase(tier string, idx int) bool {
 	if tier == "thorough" {
-		return idx%60000 == 555
+		return idx%60000 == 555 || idx%60000 == 556
 	}
-	return tier == "quick" && idx == 555
+	return tier == "quick" && (idx == 555 || idx == 556 || idx == 557)
 }
 
 // ---- guarded calls into the library ----
